@@ -534,9 +534,10 @@ def check(ctx):
     reported = 0
     classes = {"exchange": 0, "boundary": 0, "general": 0}
     nfail = 0
-    limit = len(impl) if not crash else min(len(impl), crash[0])
-    for i in range(min(limit, len(cases))):
+    for i in range(min(len(impl), len(cases))):
         o = impl[i]
+        if "||" not in o:            # the shard that crashed stops at the crashing case: reported by report_mismatches
+            continue
         if i < n_ex:
             truth = ex[i][1]
             if truth.get("f1"):
@@ -642,8 +643,9 @@ def replay(ctx, path):
     if crash:
         print("  implementation crashed:", crash[2][-1500:])
         return 1
-    print("  implementation:", impl[0][-1500:])
-    print("  model         :", model[0][-1500:])
+    print("  implementation:", impl[0].split("||")[0][-700:], "||", " ".join("%s=%s" % (k, sconnp.field(d, k)) for d in sconnp.tx_dumps(impl[0]) for k in ("id", "rml", "rel", "sml", "sel")))
+    print("  model         :", model[0].split("||")[0][-700:], "||", " ".join("%s=%s" % (k, sconnp.field(d, k)) for d in sconnp.tx_dumps(model[0]) for k in ("id", "rml", "rel", "sml", "sel")))
+    print("  implementation %s the model" % ("differs from" if impl != model else "agrees with"))
     bad = impl != model
     truth = _truth_from_json(obj.get("truth"))
     if isinstance(truth, tuple):
